@@ -14,3 +14,5 @@ def run(ctx, prog):
     J.r_validafter(ctx, prog)
     from rules import scan
     scan.run(ctx, prog)
+    from rules import unicode
+    unicode.run(ctx, prog, only_hex=True)
